@@ -1,7 +1,7 @@
 (* C18 -- board bring-up reaches an in-sync shell for any console timing or times out duly.
    Property theorems only; proofs are in ProofC18.v over the model Boot.v (AskfirstInitializer + LinuxBootLogin).
    The console is ARBITRARY in these theorems: any stages, any fragmentation, any timing.  Times in 2^-10 s. *)
-From TV Require Import Base Utf8 Regex Channel ChannelLemmas ProofC06 Hush Session ProofC02 ProofSession ProofC04b ProofLive Boot ProofC18 ProofC18b ProofC18c.
+From TV Require Import Base Utf8 Regex Channel ChannelLemmas ProofC06 Hush Session ProofC02 ProofSession ProofC04b ProofLive Boot ProofC18 ProofC18b ProofC18c ProofC18d.
 
 (* (1) with a boot timeout T configured, whatever the console does -- trickles, stalls, prints garbage, never shows
        a prompt -- the whole Linux stage (askfirst banner, login, optional delay, password) ends no later than T after
@@ -118,3 +118,22 @@ Theorem C18_read_until_prompt_live_under_deadline :
              now (io c') = last_time c.
 Proof. exact rup_timed_live. Qed.
 Print Assumptions C18_read_until_prompt_live_under_deadline.
+
+(* (9) liveness of the U-Boot stage: the autoboot prompt (a match of the configured regex at the end of what has been
+       printed) arrives before the boot timeout expires, the keys are sent, the U-Boot prompt follows within the first
+       0.5 s poll: bring-up succeeds, exactly the keys were written (no ^C), the channel is drained and carries the
+       U-Boot prompt -- for EVERY fragmentation and timing *)
+Theorem C18_uboot_stage_succeeds_when_the_prompts_arrive_in_time :
+  forall fuel cfg c S0 k0 (st_keys : stage) (sts : list stage) noise,
+  u_autoboot cfg = true -> u_keys cfg <> [] -> u_prompt cfg <> [] ->
+  match u_timeout cfg with Some T => (0 < T)%Z | None => True end ->
+  wfc c -> deaths c = [] -> slow c = None ->
+  cpend c = S0 -> S0 <> [] -> only_tail (prompt_split (Some (SRe AUTOBOOT_RE))) S0 k0 ->
+  ready (deadline (now (io c)) (u_timeout cfg)) (pend (io c)) = length S0 ->
+  wf_pend st_keys -> cat st_keys = noise ++ u_prompt cfg -> prompt_only_at_end (u_prompt cfg) noise ->
+  within (Some HALF) st_keys ->
+  exists c',
+    uboot_bringup (S fuel) cfg (st_keys :: sts) c = (BOk, c', sts) /\
+    wr (io c') = wr (io c) ++ u_keys cfg /\ pend (io c') = [] /\ prompt c' = Some (SLit (u_prompt cfg)).
+Proof. exact uboot_succeeds. Qed.
+Print Assumptions C18_uboot_stage_succeeds_when_the_prompts_arrive_in_time.
